@@ -51,6 +51,9 @@ def simple_operand(lex):
 
 def check(case):
     laid = case['lex']
+    # OVER written directly before '(' is a function name for the lexer (the documented rule behind F12a): the clause
+    # properties are stated for the keyword, so a blank is put back (construction, not filtering)
+    laid = [[l[0], l[1], l[2], dict(l[3], gap=' ')] if l[0] == 'lp' and l[3].get('over_lp') and l[3].get('gap') == '' else l for l in laid]
     text, clean, spans, marks = G.assemble(laid)
     res = Result(key=text)
     try:
